@@ -133,7 +133,9 @@ static std::string runHistory(size_t nd, int kind, const std::string& fs, const 
       std::string stepTxt = rest.substr(pos, e == std::string::npos ? std::string::npos : e - pos);
       pos = e == std::string::npos ? rest.size() : e + 4;
       size_t hh = stepTxt.find(" ## ");
-      if (hh != std::string::npos) stepTxt = stepTxt.substr(0, hh);
+      std::string expected;
+      if (hh != std::string::npos) { expected = stepTxt.substr(hh + 4); stepTxt = stepTxt.substr(0, hh); }
+      while (!expected.empty() && expected.back() == ' ') expected.pop_back();
       if (stepTxt.find_first_not_of(' ') == std::string::npos) continue;
       std::vector<std::string> a = split(stepTxt);
       std::string watch = a.back().substr(1);
@@ -171,6 +173,11 @@ static std::string runHistory(size_t nd, int kind, const std::string& fs, const 
         if (!eq) out += "!SHAREDCOPY";
       }
       out += " ;; ";
+      // under injected allocation failures: once a step's visible result departs from the failure-free expectation, the
+      // generator's knowledge of which handles are still alive no longer applies (a later step could use a handle whose
+      // value the diverged run has legitimately removed): stop the scripted part here, go on to the read-only pass,
+      // clear() and reuse
+      if (fs != "-" && !expected.empty() && res + "|" + docs + "|" + hd != expected) break;
       if (yieldSeed) { rs = rs * 1103515245u + 12345u; if ((rs >> 16) % 3 == 0) std::this_thread::yield(); }
     }
     // read-only operations must not call the allocator
